@@ -9,7 +9,8 @@ PROPERTY = 'C15'
 LEAN_MODULES = ['YatimlModel.Props.C15']
 THEOREMS = ['YatimlModel.C15.' + t for t in [
     'C15_noop_missing', 'C15_noop_wrong_kind', 'C15_noop_not_all_mappings',
-    'checkSeqItems_noop_of_nonmap', 'C15_duplicate_keys', 'C15_dash_under_inverse']]
+    'checkSeqItems_noop_of_nonmap', 'C15_duplicate_keys', 'C15_dash_under_inverse', 'C15_seq_map_item_long', 'C15_seq_map_item_short',
+    'C15_index_item_long', 'C15_index_item_short', 'C15_seq_map_seq_items', 'C15_index_map_index_items']]
 RULE = ('generated mapping nodes whose attribute is a sequence of mappings / a mapping of mappings '
         'or scalars / something else (scalar, sequence of scalars, mixed), with unique or duplicate '
         'keys, x choices of attribute, key and value attribute names (present, absent, None) x '
